@@ -159,6 +159,14 @@ def _dofname(rng, style, i, prefix):
     return (prefix, i)
 
 
+def long_chain(rng, nmin=10, nmax=11, qn_mode=None):
+    """A chain of more than ten two-state sites (site / bond indices with two digits)."""
+    if qn_mode is None:
+        qn_mode = str(rng.choice(["none", "one", "two"], p=[0.3, 0.5, 0.2]))
+    kinds = {"none": ["spin0", "elec0"], "one": ["spin", "elec", "spin0"], "two": ["spin", "elec"]}[qn_mode]
+    return random_basis_list(rng, nsite=(nmin, nmax), max_dim=2 ** nmax, min_dim=2 ** nmin, qn_mode=qn_mode, kinds=kinds)
+
+
 def random_basis_list(rng, nsite=(1, 6), max_dim=1024, qn_mode=None, kinds=None, min_dim=1):
     """Ordered list of basis sets mixing the kinds of DESIGN 2.2.
 
